@@ -139,7 +139,8 @@ def _basic_case(rng, rs, cfg, **kw):
 
 
 def fam_plain(rng):
-    rs = rules.gen_ruleset(rng, p_trail=0.0)
+    # (a quarter of the rule sets are 7-bit: NUL then lives in slot 128 of the generator's class tables)
+    rs = rules.gen_ruleset(rng, p_trail=0.0, csize=rng.choice([256, 256, 256, 128]))
     cfg = rt.Config(topt=rng.choice(TOPTS), interactive=rng.choice([None, True, False]))
     return rs, cfg, _basic_case
 
@@ -165,6 +166,11 @@ def _ops_case(kinds=None, small=True, nsrc=1, wrap=False):
                     eacts[j] = ['push:%d' % rng.randrange(nsc)]
                 elif x < 0.65:
                     eacts[j] = ['input']
+                elif x < 0.8 and j < 3 and cfg.backend != 'c99':     # (c99: the buffer size is fixed when the scanner is built)
+                    # push text back at the end of the input and go on scanning (the buffer is in its "new" state there);
+                    # room for it is needed, so no tiny buffers in this case
+                    eacts[j] = ['unput:%d' % rng.choice([97, 98, 10, 48])] * rng.choice([1, 2, 3]) + ['cont']
+                    bufsize = 16384
         return dict(srcs=srcs, main=['lex'] * (nret + 2) + ['destroy'], acts=acts, wraps=wraps, eacts=eacts,
                     sched=rtgen.gen_sched(rng), bufsize=bufsize)
     gen.small = small
@@ -181,7 +187,7 @@ def _compressed(rng):
 
 
 def fam_ops(rng):
-    rs = rules.gen_ruleset(rng, p_trail=0.0)
+    rs = rules.gen_ruleset(rng, p_trail=0.0, csize=rng.choice([256, 256, 256, 128]))
     cfg = rt.Config(ledger=rng.random() < 0.5, backend=_backend(rng, cxx=True), topt=rng.choice(TOPTS), interactive=rng.choice([None, False]),
                     yymore=rng.random() < 0.5, stack=rng.random() < 0.6, array=rng.random() < 0.4,
                     yylmax=rng.choice([None, 3, 5, 8, 13, 40]))
@@ -484,7 +490,10 @@ def _include_case(rng, rs, cfg):
         x = rng.random()
         if x < 0.12 and pool:
             src = pool.pop()
-            acts[k] = ['create:%d:%d' % (src, 16384 if getattr(cfg, 'reject_machinery', cfg.reject) else rng.choice([1, 2, 3, 8, 16384])), 'pushbuf:%d' % nreg]
+            mark = rng.random() < 0.3       # text pushed back onto the fresh buffer (an "entering file" marker): needs room
+            acts[k] = ['create:%d:%d' % (src, 16384 if mark or getattr(cfg, 'reject_machinery', cfg.reject) else rng.choice([1, 2, 3, 8, 16384])), 'pushbuf:%d' % nreg]
+            if mark:
+                acts[k] += ['unput:%d' % rng.choice([97, 98, 48])] * rng.choice([1, 2])
             nreg += 1
         elif x < 0.2:
             acts[k] = ['return:%d' % rng.randrange(1, 90)]
